@@ -52,8 +52,9 @@ class Gen(object):
         self.exc = cfg.get("exc", DEFAULT_EXC)
         self.spawn_kinds = cfg.get("spawn_kinds", [])
         # weights: msg, act, tb, succ, raise, pause, spawn, reenter, plain_gen
-        self.w = list(cfg.get("w_ops", [6, 6, 1, 2, 1, 0, 0])) + [0, 0, 0]
-        self.w = self.w[:10]
+        self.w = list(cfg.get("w_ops", [6, 6, 1, 2, 1, 0, 0])) + [0, 0, 0, 0]
+        self.w = self.w[:11]
+        self.w[10] = cfg.get("w_xreg", 0)
         self.w[7] = cfg.get("w_reenter", 0)
         self.w[8] = cfg.get("w_plain_gen", 0)
         self.w[9] = cfg.get("w_destop", 0)
@@ -115,8 +116,14 @@ class Gen(object):
                 ops.append(self.spawn(depth))
             elif k == 7:
                 how = "run" if st.choose(2, "rehow") else "context"
-                ops.append({"op": "reenter", "how": how,
-                            "body": self.body(depth + 1, nopause or how == "run", in_action=True)})
+                rbody = self.body(depth + 1, nopause or how == "run", in_action=True)
+                if self.world == "async" and how == "context" and not nopause:
+                    # stay inside for at least one await, so that other tasks can enter/leave meanwhile
+                    rbody.insert(st.choose(len(rbody) + 1, "pause-at"), {"op": "pause", "d": 0})
+                # up: 0 = the current action, k = k-th enclosing one, 9 = the outermost (typically inherited
+                # by every sibling task)
+                ops.append({"op": "reenter", "how": how, "up": [0, 1, 2, 9, 9][st.choose(5, "up")],
+                            "body": rbody})
             elif k == 8:
                 ops.append({"op": "plain_gen", "nid": self.next_nid(),
                             "atype": st.pick(ACTION_TYPES, "atype"),
@@ -126,6 +133,10 @@ class Gen(object):
                             "after": [self.plain_msg() for _ in range(st.choose(2))]})
             elif k == 9:
                 ops.append(self.destop())
+            elif k == 10:
+                xs = self.cfg.get("extractable", ["ValueError"])
+                ops.append({"op": "xreg", "cls": xs[st.choose(len(xs), "xcls")],
+                            "mode": "raise" if st.choose(4, "xmode") == 3 else "fields"})
         return ops
 
     def destop(self):
@@ -218,6 +229,12 @@ class Gen(object):
         kind = st.pick(self.spawn_kinds, "spawnkind")
         self.sid += 1
         op = {"op": "spawn", "kind": kind, "sid": self.sid}
+        if kind == "preserve":
+            # where the preserved callable is invoked: a fresh thread, the very same thread while the
+            # originating action is still current, or a thread running in a copy of the caller's context
+            # (what asyncio.to_thread / run_in_executor wrappers do)
+            hows = self.cfg.get("preserve_how", ["thread", "inline", "copyctx"])
+            op["how"] = hows[st.choose(len(hows), "preserve-how")]
         if kind == "remote":
             op["nid"] = self.next_nid()
             op["as_str"] = bool(st.choose(2, "as_str"))
@@ -235,6 +252,20 @@ def generate(st, cfg):
     n_actors = cfg.get("n_actors", 1)
     actors = []
     for i in range(n_actors):
+        if cfg.get("shared_root") and i == 0:
+            # one long-lived action whose context is inherited by 2-3 sibling tasks (and used by the
+            # parent as well): the typical "request action shared by sub-tasks" shape
+            kids = []
+            for _k in range(2 + st.choose(2, "n-siblings")):
+                g.sid += 1
+                own = {"op": "act", "nid": g.next_nid(), "api": "with", "style": "with", "atype": "app:own",
+                       "start": {}, "catch": True, "body": g.body(3, False, in_action=True)}
+                kids.append({"op": "spawn", "kind": "task", "sid": g.sid,
+                             "body": [own] if st.choose(4, "own-action") else g.body(2, False, in_action=True)})
+            root = {"op": "act", "nid": g.next_nid(), "api": "with", "style": "with", "atype": "app:shared",
+                    "start": {}, "catch": True, "body": kids + g.body(1, False, in_action=True)}
+            actors.append([root])
+            continue
         ops = g.body(0)
         actors.append(ops)
     if not any(actors):
